@@ -164,6 +164,27 @@ theorem C10_index_concrete_rel (prog : List Ins) (e : Avm.Env) (blockIns : List 
     e.field (e.self + n) f = some (valOf (p, 0)) :=
   IndexLeaf.index_leaf_rel prog e blockIns pc0 st k hrun valOf hout hargs p pa p1 p2 f n hp hpa hp1 hp2 hopp hopa hop1 hop2 hargsp hargsa
 
+/-- ... `txn GroupIndex; int n; -; gtxns f` reads the member at own index - n (and the run only gets there when n ≤ own index):
+    the member the classification `relative (-n)` stands for -/
+theorem C10_index_concrete_rel_sub (prog : List Ins) (e : Avm.Env) (blockIns : List Ins) (pc0 : Nat) (st : Nat → Avm.State) (k : Nat)
+    (hrun : OperandValues.BlockRun prog e blockIns pc0 k st) (valOf : Nat × Nat → Avm.Val)
+    (hout : ∀ j, j < k → ∀ i, i < (blockIns[j]!).op.pushes →
+      (st (j + 1)).stack[(st j).stack.length - (blockIns[j]!).op.pops + i]? = some (valOf (j, i)))
+    (hargs : ∀ j, j < k → List.Forall₂ (OperandValues.Agree valOf) (OperandValues.argsAt blockIns j)
+      ((st j).stack.drop ((st j).stack.length - (blockIns[j]!).op.pops)))
+    (p pa p1 p2 : Nat) (f : String) (n : Nat) (hp : p < k) (hpa : pa < k) (hp1 : p1 < k) (hp2 : p2 < k)
+    (hopp : (blockIns[p]!).op = .gtxns f) (hopa : (blockIns[pa]!).op = .sub)
+    (hop1 : (blockIns[p1]!).op = .txn "GroupIndex") (hop2 : (blockIns[p2]!).op = .int (.lit n))
+    (hargsp : OperandValues.argsAt blockIns p = [some (pa, 0)])
+    (hargsa : OperandValues.argsAt blockIns pa = [some (p1, 0), some (p2, 0)]) :
+    n ≤ e.self ∧ e.field (e.self - n) f = some (valOf (p, 0)) :=
+  IndexLeaf.index_leaf_rel_sub prog e blockIns pc0 st k hrun valOf hout hargs p pa p1 p2 f n hp hpa hp1 hp2 hopp hopa hop1 hop2 hargsp hargsa
+
+theorem C10_classify_sub (ic : Option (List Nat)) (a : Ast) (pa p1 p2 o1 o2 n : Nat) (hop : a.opOf pa = .sub)
+    (hargs : a.argsOf pa = [some (p1, o1), some (p2, o2)]) (h1 : a.opOf p1 = .txn "GroupIndex") (h2 : a.opOf p2 = .int (.lit n)) :
+    getIndex ic a pa = .relative (-(n : Int)) := by
+  simp [getIndex, hop, hargs, intPush, isGroupIndexRead, h1, h2, intLit]
+
 /-- ... and `int i; gtxns f` reads member `i` (`C10_classify_int`: absolute index i) -/
 theorem C10_index_concrete_abs (prog : List Ins) (e : Avm.Env) (blockIns : List Ins) (pc0 : Nat) (st : Nat → Avm.State) (k : Nat)
     (hrun : OperandValues.BlockRun prog e blockIns pc0 k st) (valOf : Nat × Nat → Avm.Val)
